@@ -167,6 +167,15 @@ def main(argv):
     thorough = chk.tier == "thorough"
     chk.translate(["cvector"])
     chk.coq("Properties_C04.v")
+    # release/acquire half: CAS publication of a block table vs the acquire loads of readers
+    defs = ("Require Import Verif.Gen.Gen_cvector.\n"
+            "Definition cs : morder := match sites_get_table_slow with [(KCasS, o, _)] => o | _ => Relaxed end.\n"
+            "Definition tl : morder := match sites_get_table with [(KLoad, o, _)] => o | _ => Relaxed end.\n"
+            "Definition sl : morder := match sites_snapshot with [(KLoad, o, _)] => o | _ => Relaxed end.")
+    chk.wm_litmus("table-publication", defs, "mp_cas_safe cs tl && mp_cas_safe cs sl",
+                  "if mp_cas_safe cs tl then mp_cas_publish cs sl else mp_cas_publish cs tl", "mp_cas_bad",
+                  "the CAS that publishes a new block table or the load that reads it lost its release/acquire order: "
+                  "a reader can use a table (or element block) whose construction is not visible yet", machine="RA")
     model = chk.extract("cv", "Extract_cv.v", "cv_driver.ml", explorer=True)
     impl = chk.build_cpp("c04_vector", [os.path.join(VERIF, "harness/conc/c04_vector.cpp"),
                                         os.path.join(VERIF, "harness/shim/dsched.cpp")],
